@@ -63,7 +63,14 @@ def plan(tier):
                        sets=False)
     for base in base_specs():
         DOCS += corpus.decorations(base, key_alias=False)
+    DOCS += corpus.merge_pack()
     DOCS += [
+        # anchored containers aliased elsewhere, keys starting with the
+        # forward-slash
+        ("m", (("ka", ("&", "H", ("m", (("kc", "aa"),)))), ("kb", ("*", "H")))),
+        ("m", (("ka", ("l", (("&", "H", ("m", (("kc", "aa"),))),
+                             ("*", "H")))),)),
+        ("m", (("/ka", "aa"), ("kb", ("m", (("/", "ab"), ("/k/c", "aa")))))),
         ("m", (("a.b", "aa"), ("k c", ("m", (("x/y", "ab"),))))),
         ("m", (("ka", ("m", (("ka", ("m", (("ka", "aa"),))),))),)),
         ("m", (("ka", ("l", ())), ("kb", ("m", ())), ("kc", "aa"))),
@@ -126,7 +133,11 @@ def leaf_sites(node, seen, va):
     """Leaf descendants (as objects), alias repeats dropped unless asked."""
     out = []
     if is_map(node):
-        for _, v in node.items():
+        if getattr(node, "merge", None):
+            # which of the merged-in leaves an expansion lists is not stated
+            raise Undecided("expansion of a hash with a merge key")
+        items = list(node.items())
+        for _, v in items:
             out += _site_or_leaves(v, seen, va)
     elif is_list(node):
         for v in node:
@@ -182,6 +193,12 @@ def expected(doc, expr, mode):
 
     def walk(node):
         if is_map(node):
+            if getattr(node, "merge", None) and not (ka or va):
+                # what a YAML merge key brings in is a repeat of the anchored
+                # hash's content: counted only when an alias option asks
+                for k, v in node.non_merged_items():
+                    visit_child(k, v)
+                return
             for k, v in node.items():
                 visit_child(k, v)
         elif is_list(node):
